@@ -252,6 +252,15 @@ func (svc *service) readMessage(mtype message.Type, total int) (message.Message,
 
 // writeMessage() writes a message to the outgoing buffer
 func (svc *service) writeMessage(msg message.Message) (int, error) {
+	return svc.writeRequest(msg, nil)
+}
+
+// writeRequest() is writeMessage() for a message that is going to be
+// acknowledged. register (may be nil) puts the message into its ack queue; it
+// is called once the message has been encoded (the packet ID is assigned while
+// encoding) and before the sender goroutine can see any of its bytes, so the
+// acknowledgement cannot be processed before the message waits for it.
+func (svc *service) writeRequest(msg message.Message, register func() error) (int, error) {
 	var (
 		l    int = msg.Len()
 		m, n int
@@ -300,6 +309,12 @@ func (svc *service) writeMessage(msg message.Message) (int, error) {
 			return 0, err
 		}
 
+		if register != nil {
+			if err = register(); err != nil {
+				return 0, err
+			}
+		}
+
 		m, err = svc.out.Write(svc.outtmp[0:n])
 		if err != nil {
 			return m, err
@@ -308,6 +323,12 @@ func (svc *service) writeMessage(msg message.Message) (int, error) {
 		n, err = msg.Encode(buf[0:])
 		if err != nil {
 			return 0, err
+		}
+
+		if register != nil {
+			if err = register(); err != nil {
+				return 0, err
+			}
 		}
 
 		m, err = svc.out.WriteCommit(n)
